@@ -331,6 +331,7 @@ func lifeDriver(a *Args) {
 	// a signal while the agent still waits for its first healthy check (SIGTERM only: whether SIGINT is ignored
 	// before the handler exists depends on the disposition the process inherited)
 	sigs = append(sigs, sigCase{"before-healthy", syscall.SIGTERM, 0, 0}, sigCase{"before-healthy", syscall.SIGTERM, 1000, 0})
+	sigs = append(sigs, sigCase{"backend+again", syscall.SIGTERM, 2000, 600}, sigCase{"backend+again", syscall.SIGINT, 1500, 600}, sigCase{"idle+again", syscall.SIGTERM, 1000, 0})
 	sigs = append(sigs, sigCase{"idle", syscall.SIGTERM, 0, 0}, sigCase{"backend", syscall.SIGINT, 0, 600}, sigCase{"backend", syscall.SIGTERM, 1000, 3000})
 	if hx.Thorough() {
 		for _, place := range []string{"idle", "listed", "backend"} {
@@ -419,6 +420,10 @@ func healthScenario(res *hx.Result, threshold int, hist []string, tr *hx.Tracer)
 func signalScenario(res *hx.Result, place string, sig syscall.Signal, graceMs, latMs int, tr *hx.Tracer) {
 	name := fmt.Sprintf("signal:%s:%d:grace%d:lat%d", place, int(sig), graceMs, latMs)
 	tr.Emit("Reset", "seg", name, "sig", name)
+	// "+again": the signalling side delivers its signal twice (a supervisor that signals the process and its group,
+	// Ctrl-C pressed twice): the second one changes nothing
+	again := strings.HasSuffix(place, "+again")
+	place = strings.TrimSuffix(place, "+again")
 	health := place == "before-healthy"
 	tr.Emit("Cfg", "threshold", 2, "health", health, "grace_ms", graceMs, "latency_ms", latMs)
 	md := hx.StartMetadata()
@@ -517,6 +522,16 @@ func signalScenario(res *hx.Result, place string, sig syscall.Signal, graceMs, l
 		tr.Emit("SignalSent", "sig", int(sig))
 	}
 	agent.Signal(sig)
+	if again {
+		go func() {
+			time.Sleep(150 * time.Millisecond)
+			other := syscall.SIGTERM
+			if sig == syscall.SIGTERM && graceMs%2000 == 0 {
+				other = syscall.SIGINT
+			}
+			agent.Signal(other)
+		}()
+	}
 	if place == "listed" {
 		time.Sleep(50 * time.Millisecond)
 		close(release)
